@@ -202,7 +202,11 @@ func (c *Cluster) rawAuthToken(sc *srvConn, token []byte) {
 	}
 	var b [4]byte
 	b[0], b[1], b[2], b[3] = byte(len(out)>>24), byte(len(out)>>16), byte(len(out)>>8), byte(len(out))
-	sc.srv.Write(append(b[:], out...))
+	frame := append(b[:], out...)
+	if c.RawAuthMutate != nil {
+		frame = c.RawAuthMutate(sc.saslRound(), frame)
+	}
+	sc.srv.Write(frame)
 	c.mu.Unlock()
 	c.event()
 }
